@@ -176,6 +176,44 @@ def judge(module, records, cfg=None, shards=None, timeout=1800, tag=None):
     return len(records) - len(mism), mism, stats
 
 
+def judge_runs(module, runs, shards=None, timeout=1800, tag=None):
+    """Trace validation of whole runs: `runs` is a list of event lists (each starting with its reset / input event); runs are never split
+    between shards.  The trace module prints MISMATCH for a run it cannot follow and <<"ALLCONSUMED", n>> when it has consumed every record.
+    Returns (runs_accepted, mismatches, stats)."""
+    if not runs:
+        return 0, [], {"generated": 0, "distinct": 0, "wall": 0.0}
+    shards = max(1, min(shards or NCPU, (len(runs) + 99) // 100))
+    d = OUT / "traces" / (tag or f"{module}-{os.getpid()}")
+    if d.exists():
+        shutil.rmtree(d)
+    d.mkdir(parents=True)
+    files = []
+    for s in range(shards):
+        part = runs[s::shards]
+        f = d / f"t{s}.ndjson"
+        n = 0
+        with open(f, "w") as fh:
+            for r in part:
+                for e in r:
+                    fh.write(json.dumps(e, separators=(",", ":")) + "\n")
+                    n += 1
+        files.append((f, n))
+
+    def one(a):
+        f, n = a
+        r = tlc(module, module, workers=1, env={"TRACE": str(f)}, timeout=timeout, depth_first=True,
+                metatag=f"{module}-{f.stem}-{os.getpid()}-{time.time_ns()}")
+        if "Model checking completed. No error has been found." not in r.stdout or f'<<"ALLCONSUMED", {n}>>' not in r.stdout:
+            raise ToolError(f"judge {module} did not consume its trace {f} (or an invariant of the specification failed on a recorded state):\n{r.stdout[-3000:]}")
+        return r
+
+    with ThreadPoolExecutor(max_workers=min(shards, NCPU)) as ex:
+        rs = list(ex.map(one, files))
+    mism = [m for r in rs for m in r.mismatches]
+    stats = {"generated": sum(r.generated for r in rs), "distinct": sum(r.distinct for r in rs), "wall": max(r.wall for r in rs)}
+    return len(runs) - len({m["id"] for m in mism}), mism, stats
+
+
 # ----------------------------------------------------------------------------------------------
 # Rust drivers (real code)
 # ----------------------------------------------------------------------------------------------
